@@ -231,6 +231,8 @@ let () =
            (match res2 with None -> "-" | Some x -> cres_name x) (state_name c2.c_ws)
            (rle (bytes_of_nlist c2.c_wire)) tail verdict
        | _ -> Printf.printf "noparams | oracle=fail@%s\n" (match itoks with t :: _ -> t | [] -> "empty"))
+    | "stall" :: _ ->
+      Printf.printf "stall ok | %s\n" (if String.trim impl_line = "stall ok" then "oracle=ok" else "oracle=fail@slow-client-" ^ String.concat "-" (List.tl (split_ws impl_line)))
     | "sess" :: k :: toks ->
       (match param_of "rp=" itoks, param_of "ct=" itoks, str_param "c5=" itoks, param_of "rp5=" itoks,
              param_of "ct5=" itoks, param_of "b5=" itoks with
